@@ -435,4 +435,10 @@ def rule_init(ck):
         (o.ok() if ok else o.fail('%s no longer computes the expected rates when they are missing' % q))
 
 
-RULES = [rule_writers, rule_init, rule_next, rule_getters, rule_complete_passes, rule_consumers]
+def rule_tolerance_shared(ck):
+    from . import c02
+    ck.clause('shared C02-D2: no fixed binning tolerance inside the package')
+    c02.rule_tolerance_flow(ck)
+
+
+RULES = [rule_writers, rule_init, rule_next, rule_getters, rule_complete_passes, rule_consumers, rule_tolerance_shared]
